@@ -98,6 +98,7 @@ def cfg_named(name):
         BR = 'OpenVolumeMesh::IO::detail::BinaryFileReader'
         k = cfg_named('kernel')
         k['drop_fields'][BR] = ['geometry_reader_', 'prop_codecs_', 'props_']
+        k['drop_fields']['OpenVolumeMesh::IO::detail::BinaryFileWriter'] = ['geometry_writer_', 'prop_codecs_', 'props_', 'ostream_', 'header_pos_', 'error_msg_', 'options_']
         k['exceptions'] = True
         return k
     raise Cxx2cError('unknown config ' + name)
